@@ -47,7 +47,7 @@ type Rule struct {
 	FailInReturn bool   `json:"fail_in_return,omitempty"`
 	Ret          int    `json:"ret,omitempty"`
 	RetVal       int64  `json:"ret_val,omitempty"`
-	RetShape     int    `json:"ret_shape,omitempty"` // 0 top level, 1 inside if, 2 inside for+if, 3 inside forRange, 4 if/else-if chain
+	RetShape     int    `json:"ret_shape,omitempty"` // 0 top level, 1 inside if, 2 inside for+if, 3 inside forRange, 4 if/else-if chain, 5 else-if holding only the return, 6 / 7 else-less chain whose only return sits in a later else-if (7: inside a loop)
 	SetStop      bool   `json:"set_stop,omitempty"`
 	Version      int64  `json:"version,omitempty"` // unique tag of this compilation of the rule (C07/C08/C16)
 	Custom       string `json:"custom,omitempty"`  // FailCustom: statements that must fault (they contain their own trailing en(id) where legal)
@@ -187,7 +187,7 @@ func Gen(r *rand.Rand, o GenOpts) *RuleSet {
 		if r.Float64() < o.RetProb {
 			ru.Ret = RetBare + r.Intn(2)
 			ru.RetVal = int64(1000 + r.Intn(1000000))
-			ru.RetShape = r.Intn(6)
+			ru.RetShape = r.Intn(8)
 			if ru.Fails() && ru.Ret == RetValue && r.Intn(2) == 0 {
 				ru.FailInReturn = true
 			}
@@ -308,6 +308,12 @@ func (ru *Rule) Body(r *rand.Rand) string {
 			fmt.Fprintf(&b, "for i = 0; i < 3; i += 1 {%sif i == 1 {%s%s%s%s%s}%s}%s", ws(r), ws(r), end, ws(r), ret, ws(r), ws(r), ws(r))
 		case 3:
 			fmt.Fprintf(&b, "forRange k := three {%sif k == 2 {%s%s%s%s%s}%s}%s", ws(r), ws(r), end, ws(r), ret, ws(r), ws(r), ws(r))
+		case 6:
+			// an if without else whose only return sits in its SECOND else-if
+			fmt.Fprintf(&b, "if 2 < 1 {%sst(-1)%s} else if 3 < 1 {%sst(-3)%s} else if 1 == 1 {%s%s%s%s%s}%s", ws(r), ws(r), ws(r), ws(r), ws(r), end, ws(r), ret, ws(r), ws(r))
+		case 7:
+			// ... in its third else-if, inside a loop
+			fmt.Fprintf(&b, "for i = 0; i < 3; i += 1 {%sif i == 7 {%sst(-1)%s} else if i == 8 {%sst(-3)%s} else if i == 9 {%sst(-4)%s} else if i == 1 {%s%s%s%s%s}%s}%s", ws(r), ws(r), ws(r), ws(r), ws(r), ws(r), ws(r), ws(r), end, ws(r), ret, ws(r), ws(r), ws(r))
 		case 5:
 			// the taken else-if branch holds NOTHING BUT the return
 			fmt.Fprintf(&b, "%s%sif 2 < 1 {%sst(-1)%s} else if 1 == 1 {%s%s%s} else {%sst(-2)%s}%s", end, ws(r), ws(r), ws(r), ws(r), ret, ws(r), ws(r), ws(r), ws(r))
